@@ -24,6 +24,7 @@ import logging
 import math
 import random
 import signal
+import time
 from enum import Enum
 from fractions import Fraction
 from typing import Any, Dict, List, Optional, Sequence, Tuple
@@ -69,17 +70,29 @@ Definition chk_infeat (c : pv * res (list pv)) := res_set_eqb (snd c) (get_in_fe
 (* group index, name, group options, context options *)
 Definition chk_inputs (c : (nat * str * list (str * pv) * list (str * pv)) * res (list pv)) :=
   match c with ((gi, name, gr, cx), obs) => res_set_eqb obs (input_features (grp_of gi) name gr cx) end.
+(* known-defect domain (unhashable list / set under a mapped key -> TypeError): the repaired behaviour, reading
+   them like a frozenset, is accepted as well *)
+Definition fix_pv (v : pv) : pv := match v with PList l | PSet false l => PSet true (dedup l) | _ => v end.
+Definition fix_opts (d : list (str * pv)) := map (fun p => (fst p, fix_pv (snd p))) d.
+Definition res_bool_eqb (a b : res bool) := match a, b with Ok x, Ok y => Bool.eqb x y | Err e, Err e' => err_eqb e e' | _, _ => false end.
 Definition chk_match (c : (nat * str * list (str * pv) * list (str * pv)) * res bool) :=
   match c with ((gi, name, gr, cx), obs) =>
-    match obs, match_criteria (grp_of gi) name gr cx with
-    | Ok a, Ok b => Bool.eqb a b | Err e, Err e' => err_eqb e e' | _, _ => false end end.
+    let m := match_criteria (grp_of gi) name gr cx in
+    res_bool_eqb obs m
+    || match m with Err EType => res_bool_eqb obs (match_criteria (grp_of gi) name (fix_opts gr) (fix_opts cx)) | _ => false end end.
 Definition chk_op (c : (nat * str * list (str * pv) * list (str * pv)) * res pv) :=
   match c with ((gi, name, gr, cx), obs) =>
     match obs, extract_op (grp_of gi) name gr cx with
     | Ok a, Ok b => pv_eqb a b | Err e, Err e' => err_eqb e e' | _, _ => false end end.
 (* document, observed features (None = rejected) *)
+(* a schema-invalid document that the faithful model accepts (known-defect domain) may also be rejected (repaired) *)
 Definition chk_json (c : json * option (list pv)) :=
-  match snd c, load (fst c) with Some a, Ok b => list_eqb a b | None, Err _ => true | _, _ => false end.
+  match snd c, load (fst c) with
+  | Some a, Ok b => list_eqb a b
+  | None, Err _ => true
+  | None, Ok _ => negb (doc_valid (fst c))
+  | Some _, Err _ => false
+  end.
 (* classification used for the schema property: invalid but accepted by the model *)
 Definition invalid_accepted (c : json * option (list pv)) := negb (doc_valid (fst c)) && accepted (fst c).
 Definition chk_doc_invalid (c : json * option (list (nat * pv))) := negb (doc_valid (fst c)).
@@ -100,7 +113,9 @@ Definition opt_trace_eqb (a b : option (list (nat * pv))) := match a, b with Som
 Definition chk_run (c : pv * option (list (nat * pv))) := opt_trace_eqb (snd c) (predict (fst c)).
 (* a JSON document holding one feature item *)
 Definition predict_json (j : json) := match load j with Ok [f] => predict f | _ => None end.
-Definition chk_run_json (c : json * option (list (nat * pv))) := opt_trace_eqb (snd c) (predict_json (fst c)).
+Definition chk_run_json (c : json * option (list (nat * pv))) :=
+  opt_trace_eqb (snd c) (predict_json (fst c))
+  || (negb (doc_valid (fst c)) && match snd c with None => true | Some _ => false end).
 (* the three notations of one chain: name, options, JSON; expected trace in application order *)
 Definition chk_triple (c : (pv * pv * json) * list (nat * pv)) :=
   match c with ((n, o, j), t) =>
@@ -659,6 +674,7 @@ FIXED_DOCS: List[Any] = [
 
 
 def obs_json(doc: Any) -> Any:
+    import mloda.user  # noqa: F401  (must be imported before the loader module: circular import otherwise)
     from mloda.core.api.feature_config.loader import load_features_from_config
     try:
         fs = load_features_from_config(json.dumps(doc))
@@ -959,10 +975,11 @@ def triple_case(rng: random.Random, max_depth: int) -> dict:
     inner_sp = rng.choice(["feat", "fset_feat"])
     # a Feature nested inside a frozenset makes run_all super-exponentially slow in the nesting depth on the pinned tree
     # (0.01 s, 0.2 s, 10 s, > 120 s for depth 1..4; the values are right) — keep those spellings shallow
-    if k > 2:
+    # (one frozenset-of-Feature level costs ~0.2 s, two ~10 s, three minutes): at most one such level per case
+    if inner_sp == "fset_feat" and (k != 2 or sp == "fset_feat"):
         inner_sp = "feat"
-    if k > 3 and sp == "fset_feat":
-        sp = "fset"
+    if sp == "fset_feat" and k > 2:
+        sp = "feat"
     place = rng.choice(["context", "context", "group"])
     forms = ["nested", "mixed"] + (["context", "options"] if True else [])
     form = rng.choice(forms)
@@ -992,10 +1009,6 @@ def value_of(r: Dict[str, Any], col: str) -> Optional[List[Any]]:
 
 
 # ------------------------------------------------------------------------------------------------------------
-def _finding_or_violation(rep: vlib.Reporter, key: str, what: str, replay: Any) -> None:
-    rep.finding(key, what, replay)
-
-
 def run(rep: vlib.Reporter, tier: str, seed: int) -> None:
     rng = random.Random(seed * 7919 + 16)
     big = tier == "thorough"
@@ -1016,6 +1029,15 @@ def run(rep: vlib.Reporter, tier: str, seed: int) -> None:
         "written from the group docstrings",
         "Python re / str.rsplit are the reference for the regex family (library behaviour)"]
     found = False
+    phase_s: Dict[str, float] = {}
+    t_last = [rep.t0]
+
+    def mark(name: str) -> None:
+        now = time.time()
+        phase_s[name] = round(now - t_last[0], 1)
+        t_last[0] = now
+
+    mark("build_props")
 
     def finding(key: str, what: str, replay: Any) -> None:
         nonlocal found
@@ -1091,6 +1113,7 @@ def run(rep: vlib.Reporter, tier: str, seed: int) -> None:
         finding(f"shape:{c['name']!r}:{c['suf']}", f"{c['name']!r} parsed as {c['obs']} which is outside the stated shape",
                 {"kind": "parse", **c})
 
+    mark("parse")
     # ---------------------------------------------------------------- get_in_features
     vals = infeat_values(rng, 4000 if big else 500)
     ic = [{"v": v, "obs": obs_infeat(v)} for v in vals]
@@ -1108,6 +1131,7 @@ def run(rep: vlib.Reporter, tier: str, seed: int) -> None:
         finding(f"infeat:{json.dumps(ic[i]['v'])}", f"Options.get_in_features on {ic[i]['v']!r} gives {ic[i]['obs']} — differs from the model",
                 {"kind": "infeat", **ic[i]})
 
+    mark("get_in_features")
     # ---------------------------------------------------------------- input_features / match / op
     fc = feature_cases(rng, 12000 if big else 1500)
     for name_, fn, chk, printer, ty in (
@@ -1135,6 +1159,7 @@ def run(rep: vlib.Reporter, tier: str, seed: int) -> None:
                     f"{name_} of group {GROUP_SPECS[c['gi']]['suf']} on name {c['name']!r} with options group={c['group']} "
                     f"context={c['context']} gives {o} — differs from the model", {"kind": name_, **c, "obs": o})
 
+    mark("inputs_match_op")
     # ---------------------------------------------------------------- JSON documents
     docs = list(FIXED_DOCS) + [rand_doc(rng) for _ in range(15000 if big else 1800)]
     jc = []
@@ -1166,6 +1191,7 @@ def run(rep: vlib.Reporter, tier: str, seed: int) -> None:
         if not any(k["key"] == KF_UNTYPED for k in rep.kf):
             found = True
 
+    mark("json")
     # ---------------------------------------------------------------- end to end: triples
     tc = [triple_case(rng, 4) for _ in range(10000 if big else 300)]
     tri_terms, tri_cases = [], []
@@ -1244,6 +1270,7 @@ def run(rep: vlib.Reporter, tier: str, seed: int) -> None:
             finding(f"e2e-unhashable-model:{json.dumps(c['O'])}", "list/set spelling fails but the model resolves it", {"kind": "triple", "O": c["O"]})
     rep.add("e2e_triples", {**info, **stats})
 
+    mark("e2e_triples")
     # ---------------------------------------------------------------- end to end: nested notations without protection
     ust = {"cases": 0, "equal": 0, "rejected_known": 0}
     for _ in range(3000 if big else 120):
@@ -1281,6 +1308,7 @@ def run(rep: vlib.Reporter, tier: str, seed: int) -> None:
                         f"{vv if vv is not None else replay['res']} vs name notation {vn}", replay)
     rep.add("e2e_unprotected", ust)
 
+    mark("e2e_unprotected")
     # ---------------------------------------------------------------- end to end: malformed names and invalid documents
     from mloda.user import Feature
     bn = []
@@ -1334,12 +1362,14 @@ def run(rep: vlib.Reporter, tier: str, seed: int) -> None:
     from mloda.core.api.feature_config.loader import load_features_from_config
 
     def run_doc(m: Any) -> dict:
+        loaded = False
         try:
             fs = load_features_from_config(json.dumps([m]))
+            loaded = True
             r = run_one(fs, "PandasDataFrame")
         except Exception as e:  # noqa: BLE001
             r = {"ok": False, "exc": type(e).__name__, "msg": str(e)[:200], "trace": []}
-        return {"doc": [m], "obs": observed_trace(r), "exc": r.get("exc"), "cols": r.get("cols")}
+        return {"doc": [m], "obs": observed_trace(r), "exc": r.get("exc"), "cols": r.get("cols"), "loaded": loaded}
 
     for m in muts:
         bd.append(run_doc(m))
@@ -1375,11 +1405,13 @@ def run(rep: vlib.Reporter, tier: str, seed: int) -> None:
             found = True
     rep.add("dropped_options_witness", {"doc": w_with["doc"], "with_empty_context_options": [w_with["obs"], w_with["exc"]],
                                         "without_context_options": [w_without["obs"], w_without["cols"]]})
-    if w_without["obs"] is not None and w_with["obs"] != w_without["obs"]:
+    if w_with["loaded"] and w_without["obs"] is not None and w_with["obs"] != w_without["obs"]:
         rep.finding(KF_DROPPED, "options ignored next to an empty context_options", {"kind": "run_doc", **w_with})
         if not any(k["key"] == KF_DROPPED for k in rep.kf):
             found = True
 
+    mark("e2e_names_documents")
+    rep.add("phase_seconds", phase_s)
     rep.add("rule", "parse: generated well-formed chains (depth 1-4, 14 atoms x 10 ops x 5 suffixes), malformed mutations, a fixed list, and ALL "
                     "strings over {a,_,-,newline} up to the stated length with 3 endings; in_features spellings; (group, name, options) "
                     "triples on 5 groups; JSON documents: valid forms and schema-violating mutations; end to end: PRNG chains over {aggr, "
@@ -1415,6 +1447,7 @@ def py_chain_ok(name: str) -> Optional[List[Tuple[int, str]]]:
 
 
 def replay(path: str) -> int:
+    import mloda.user  # noqa: F401
     r = json.load(open(path))["replay"]
     kind = r.get("kind")
     print(json.dumps({k: v for k, v in r.items() if k not in ("res",)}, indent=1)[:3000])
